@@ -330,7 +330,7 @@ def main(tier, seed):
             ck.report(REASONS[nm_bad[i][0]] + "-with-pattern-like-topic-names", f"InternalStateServer with topics named {[NAMINGS[naming](t) for t in range(1, 6)]}: {REASONS[nm_bad[i][0]]}",
                       dict(kind="bus", naming=naming, handlers=[[c, v, outs] for (c, v), outs in tab.items()], ops=ops, observed=nm_obs[i], codes=nm_bad[i]))
             break
-    nlong = 2500 if tier == "quick" else 30000
+    nlong = 2500 if tier == "quick" else 12000
     long_ops = number([("S", 1, [1])] + [("P", 1 + (k % 7 == 3)) for k in range(nlong)] + [("S", 2, [1, 2]), ("P", 1), ("S", 3, [2]), ("P", 2)])
     lg_obs, lg_bad = evaluate([({}, long_ops)])
     ck.evaluations += 1
